@@ -100,7 +100,7 @@ from vlib.core import StopRun
 
 PROPERTY = 'C20'
 LEVEL = 'exploration'
-RULE = ('precipitation configurations from the shared generator {binary Al-Zr, ternary Ni-Al-Cr, 2-3 phase Al-Mg-Si} x PSD recording on/off x '
+RULE = ('precipitation configurations from the shared generator {binary Al-Zr, binary two-precipitate Cu-Ti, ternary Ni-Al-Cr, 2-3 phase Al-Mg-Si} x PSD recording on/off x '
         '{Euler, RK4} x 1-3 solve calls (each ended by its end time or a step cap, <=150 steps in total) x file name with/without .npz x '
         'recording history {unchanged, on->off->solve, on->off->save, off->on->solve, (diffusion) removed before save}; '
         'diffusion configurations {single phase, homogenization x 5 rules} x {Ni-Cr, Ni-Cr-Al, Fe-Cr-Ni} x recording on/off x 1-3 calls, 8-24 nodes; '
@@ -127,7 +127,7 @@ REACH = ['GenericModel.py:GenericModel.save', 'GenericModel.py:GenericModel.load
          'thermo/Surrogate.py:BinarySurrogate.getInterfacialComposition', 'thermo/Surrogate.py:MulticomponentSurrogate.curvatureFactor',
          'thermo/Surrogate.py:MulticomponentSurrogate.getGrowthAndInterfacialComposition',
          'thermo/Surrogate.py:MulticomponentSurrogate.impingementFactor']
-NCASES = {'quick': {'precip': 54, 'diffusion': 36, 'surrogate': 53}, 'thorough': {'precip': 900, 'diffusion': 540, 'surrogate': 435}}
+NCASES = {'quick': {'precip': 60, 'diffusion': 36, 'surrogate': 53}, 'thorough': {'precip': 1000, 'diffusion': 540, 'surrogate': 435}}
 MIN_NONTRIVIAL = {'quick': 150, 'thorough': 2500}
 CASE_TIMEOUT = 600
 CASE_TIMEOUT_THOROUGH = 900
@@ -251,13 +251,14 @@ def _record_history(rng, name, nc):
 
 
 def _plan_precip(rng, n, tier):
-    D = {'system': _deck(rng, ['alzr', 'nialcr', 'almgsi'], n), 'record': _deck(rng, [True, False], n),
+    n_cuti = 6 if tier == 'quick' else 100        # binary Cu-Ti with TWO precipitate phases (one interfacial table per phase)
+    D = {'system': _deck(rng, ['alzr', 'nialcr', 'almgsi'], n - n_cuti) + ['cuti'] * n_cuti, 'record': _deck(rng, [True, False], n),
          'iterator': _deck(rng, ['euler', 'euler', 'rk4'], n), 'ncalls': _deck(rng, [1, 2, 3, 3, 2], n),
          'ext': _deck(rng, [True, False], n), 'hist': _deck(rng, RECORD_HISTORIES[:7], n)}
     cases = []
     for i in range(n):
         system, it = D['system'][i], D['iterator'][i]
-        cfg = precip_gen.gen_config(rng, system=system, tier=tier, allow_noniso=(system != 'alzr'), grid_class='in_range',
+        cfg = precip_gen.gen_config(rng, system=system, tier=tier, allow_noniso=(system not in ('alzr', 'cuti')), grid_class='in_range',
                                     sites=['bulk', 'dislocations', 'dislocations', 'grain boundaries'], iterator=it, max_steps=150)
         flag, nc, toggles = _record_history(rng, D['hist'][i], D['ncalls'][i])
         cfg['recordPSD'] = bool(D['record'][i]) if flag is None else flag
@@ -283,7 +284,7 @@ def _plan_precip(rng, n, tier):
         for j in range(nc):
             steps = max(8, int(total * w[j]))
             if rng.random() < 0.45:
-                lo, hi = {'alzr': (1.0, 200.0), 'nialcr': (0.02, 5.0), 'almgsi': (50.0, 2e4)}[system]
+                lo, hi = {'alzr': (1.0, 200.0), 'nialcr': (0.02, 5.0), 'almgsi': (50.0, 2e4), 'cuti': (1.0, 500.0)}[system]
                 calls.append({'mode': 'natural', 'steps': steps, 'factor': float(_loguniform(rng, 0.3, 4.0)),
                               'first': float(_loguniform(rng, lo, hi))})
             else:
